@@ -24,6 +24,7 @@ import (
 	"fmt"
 	"io"
 	"maps"
+	"math"
 	"os"
 	"strconv"
 )
@@ -53,8 +54,15 @@ type WriterOptions struct {
 type Writer struct {
 	meta MetaInfo
 
-	w          *posWriter
-	origW      io.Writer
+	w     *posWriter
+	origW io.Writer
+
+	// canSeek is set if origW can seek (a Seek method alone does not tell: an
+	// *os.File may be a pipe).  seekBase is the offset in origW of the first
+	// byte of the PDF file: positions inside the PDF file are counted from
+	// there, the sink may hold other data before it.
+	canSeek    bool
+	seekBase   int64
 	closeOrigW bool
 
 	xref    map[uint32]*xRefEntry
@@ -279,6 +287,12 @@ func NewWriter(w io.Writer, v Version, opt *WriterOptions) (*Writer, error) {
 		refIsPlaintext:   map[Reference]bool{},
 	}
 	pdf.rm = NewResourceManager(pdf)
+	if ws, ok := w.(io.WriteSeeker); ok {
+		if base, err := ws.Seek(0, io.SeekCurrent); err == nil {
+			pdf.canSeek = true
+			pdf.seekBase = base
+		}
+	}
 
 	_, err = fmt.Fprintf(pdf.w, "%%PDF-%s\n%%\x80\x80\x80\x80\n", versionString)
 	if err != nil {
@@ -506,9 +520,12 @@ func (w *Writer) scannerFrom(pos int64, canObjStm bool) (*scanner, error) {
 	s.unencrypted = w.refIsPlaintext
 	if ra, ok := w.origW.(io.ReaderAt); ok {
 		s.fileReader = ra
+		if w.seekBase != 0 {
+			s.fileReader = io.NewSectionReader(ra, w.seekBase, math.MaxInt64-w.seekBase)
+		}
 	}
 
-	_, err := r.Seek(pos, io.SeekStart)
+	_, err := r.Seek(w.seekBase+pos, io.SeekStart)
 	if err != nil {
 		return nil, err
 	}
